@@ -280,6 +280,10 @@ func runProperty(e *sym.Engine, spec *propSpec, tier string, seed int, workers i
 					why = "native harness panicked: " + r.Panic
 				}
 				fmt.Printf("UNCONFIRMED property=%s %s (%s; native failed=%v)\n", spec.ID, desc, why, r.Failed)
+				if keep := os.Getenv("VRT_KEEP_UNCONFIRMED"); keep != "" {
+					h := sha256.Sum256([]byte(fmt.Sprint(c.v.ID, c.v.Site, cases[i].Model)))
+					sym.WriteReplayDir(filepath.Join(keep, spec.ID, fmt.Sprintf("%x", h[:6])), []sym.ReplayCase{cases[i]})
+				}
 				unconfirmed = append(unconfirmed, desc+": "+why)
 			case c.v.Region != "":
 				if !knownSeen[c.v.Region] {
